@@ -276,10 +276,18 @@ type obs struct {
 }
 
 func eval(c Case) (o obs, crash error) {
-	env := map[string]string{"SSH_ORIGINAL_COMMAND": c.command(), "LOGNAME": c.LogName, "SSH_CONNECTION": c.Conn}
+	env := map[string]string{"SSH_ORIGINAL_COMMAND": c.command(), "LOGNAME": c.LogName, "SSH_CONNECTION": c.Conn,
+		// what else sshd and the login environment export: none of it is an input of the parameters
+		"SSH_CLIENT": "203.0.113.9 50000 22", "USER": "root", "HOME": "/root", "SSH_TTY": "/dev/pts/0", "SSH_USER_AUTH": "/tmp/auth", "REMOTE_ADDR": "203.0.113.9",
+		"SSH_CLIENT_IP": "203.0.113.9", "REMOTEHOST": "203.0.113.9", "SUDO_USER": "root", "SSH_AUTH_SOCK": "/tmp/agent.sock"}
 	argv := append([]string(nil), c.Argv...)
 	crash = vh.Catch(func() {
-		p, err := csr.NewReqParam(func(k string) string { return env[k] }, func() []string { return argv })
+		p, err := csr.NewReqParam(func(k string) string {
+			if v, ok := env[k]; ok {
+				return v
+			}
+			return "203.0.113.9 50000 22" // any other variable: a decoy that looks like a connection string
+		}, func() []string { return argv })
 		if err != nil {
 			o.err = err.Error()
 			if p != nil {
@@ -412,7 +420,7 @@ func exec(c0 Case) (vh.Outcome, error) {
 	return out, nil
 }
 
-const rule = "SSH_ORIGINAL_COMMAND: JSON objects under the documented wire names (complete, member dropped, member retyped, extra look-alike members such as logName/clientIP, shuffled, with insignificant whitespace around the object), legacy text (version omitted / empty / valid / invalid, requester absent / without '@', optionally among 26..100 further attributes), other JSON values (null, arrays, strings with ' req=a@b '), empty, bytes, legacy noise; LOGNAME empty / unicode / spaces; SSH_CONNECTION v4, v6, zone-suffixed, leading zeros, bracketed, empty, leading space, tab; argv 0..8 arguments partitioned at random from token lists (valid 3..6 tokens, wrong count, policy misplaced or misspelt, empty tokens). Each Case is evaluated twice. Oracle on success: LogName = LOGNAME != '', ClientIP = first field and valid without zone (net/netip), policy in {NONS,NSOK} = second-last token, handler = last token, version = independently parsed major.minor of the declared text (0.0 only when a legacy message has none), ReqUser/ReqHost = declared values, transaction id 10 hex digits and different between the two evaluations; inputs valid by construction must succeed. Non-trivial: accepted cases and refused cases whose command is a non-object JSON value; distinct by Case hash."
+const rule = "SSH_ORIGINAL_COMMAND: JSON objects under the documented wire names (complete, member dropped, member retyped, extra look-alike members such as logName/clientIP, shuffled, with insignificant whitespace around the object), legacy text (version omitted / empty / valid / invalid, requester absent / without '@', optionally among 26..100 further attributes), other JSON values (null, arrays, strings with ' req=a@b '), empty, bytes, legacy noise; LOGNAME empty / unicode / spaces; SSH_CONNECTION v4, v6, zone-suffixed, leading zeros, bracketed, empty, leading space, tab; every other environment variable answers with a decoy (203.0.113.9 ...; SSH_CLIENT, USER = root, ...) that must never show up in the result; argv 0..8 arguments partitioned at random from token lists (valid 3..6 tokens, wrong count, policy misplaced or misspelt, empty tokens). Each Case is evaluated twice. Oracle on success: LogName = LOGNAME != '', ClientIP = first field and valid without zone (net/netip), policy in {NONS,NSOK} = second-last token, handler = last token, version = independently parsed major.minor of the declared text (0.0 only when a legacy message has none), ReqUser/ReqHost = declared values, transaction id 10 hex digits and different between the two evaluations; inputs valid by construction must succeed. Non-trivial: accepted cases and refused cases whose command is a non-object JSON value; distinct by Case hash."
 
 func TestC14Params(t *testing.T) {
 	vh.Run(t, vh.Spec[Case]{Property: "C14", Name: "TestC14Params", Rule: rule, Gen: gen, Exec: exec})
